@@ -304,6 +304,33 @@ Proof. intros H Hx. apply H. injection Hx as ->. reflexivity. Qed.
 Lemma ghosts_nil x : ghosts_ok [] x.
 Proof. split; [unfold bound_in; cbn; congruence|congruence]. Qed.
 
+(* plain structs: the member cells are declared, read and stored like any other local *)
+Lemma decl_members_sim lm x flds : forall j,
+  (forall i, (i < List.length flds)%nat -> In (mkey x (j + i)) L) ->
+  sim [] lm (decl_members x j flds) (decl_members x j flds).
+Proof.
+  induction flds as [|f r IH]; intros j H; cbn [decl_members]; [apply sim_ret|].
+  apply sim_bind.
+  - apply declare_sim. specialize (H 0%nat). rewrite Nat.add_0_r in H. apply H. cbn. apply Nat.lt_0_succ.
+  - intros _. apply IH. intros i Hi. replace (Datatypes.S j + i)%nat with (j + Datatypes.S i)%nat by (rewrite Nat.add_succ_r; reflexivity).
+    apply H. cbn. apply (proj1 (Nat.succ_lt_mono _ _)). exact Hi.
+Qed.
+Lemma copy_cells_sim lm dst src idxs : frames_in_L lm ->
+  sim [] lm (dcopy_cells dst src idxs) (copy_cells dst src idxs).
+Proof.
+  intros Hlm. induction idxs as [|i r IH]; cbn [dcopy_cells copy_cells]; [apply sim_ret|].
+  apply sim_bind; [apply read_sim; [exact Hlm|apply ghosts_nil]|]. intros v.
+  apply sim_bind; [apply write_sim; [exact Hlm|apply ghosts_nil]|]. intros _. exact IH.
+Qed.
+Lemma copy_members_sim lm x y flds : frames_in_L lm -> forall j,
+  sim [] lm (dcopy_members x y j flds) (copy_members x y j flds).
+Proof.
+  intros Hlm. induction flds as [|f r IH]; intros j; cbn [dcopy_members copy_members]; [apply sim_ret|].
+  apply sim_bind; [apply copy_cells_sim; exact Hlm|]. intros _. apply IH.
+Qed.
+
+
+
 Lemma assign_sim lm lv x idx v :
   frames_in_L lm -> sim [] lm (d_assign lv x idx v) (m_write x idx v).
 Proof.
@@ -678,6 +705,8 @@ Proof.
     + cbn [mexec exec]. apply IHb; assumption.
     + cbn [mexec exec]. apply sim_bind; [apply print_args_sim; apply IHl0; assumption|]. intros _.
       destruct nl; [apply out_sim|apply sim_ret].
+    + cbn [mexec exec]. apply decl_members_sim. intros i Hi. apply Hwf. exact Hi.
+    + cbn [mexec exec]. apply copy_members_sim. exact Hlm.
 Qed.
 End Refine.
 
